@@ -431,13 +431,17 @@ Lemma typed_str f vs :
   vs <> [] -> same_types TStr vs = true ->
   concat_typed f TStr vs = Ok (CStr (concat_strings (strs vs))).
 Proof.
-  intros Hne Hs. destruct vs as [|v [|w l]]; [congruence| |reflexivity].
-  cbn in Hs. destruct v; cbn in Hs; try discriminate.
-  cbn. rewrite append_nil_r. reflexivity.
+  intros Hne Hs. destruct vs as [|v [|w l]]; [congruence| |].
+  - cbn in Hs. destruct v; cbn in Hs; try discriminate.
+    cbn. rewrite append_nil_r. reflexivity.
+  - unfold concat_typed. rewrite registered_str. reflexivity.
 Qed.
 
 Lemma typed_num f k vs : vs <> [] -> concat_typed f (TNum k) vs = Ok (last vs CNil).
-Proof. intros Hne. destruct vs as [|v [|w l]]; [congruence|reflexivity|reflexivity]. Qed.
+Proof.
+  intros Hne. destruct vs as [|v [|w l]]; [congruence|reflexivity|].
+  unfold concat_typed. rewrite registered_num. reflexivity.
+Qed.
 
 Lemma typed_other f tag vs :
   vs <> [] -> same_types (TOther tag) vs = true ->
